@@ -191,9 +191,11 @@ func runCheck(o checkOpts) int {
 			continue
 		}
 		vcs = append(vcs, vc)
-		if jb.sweep && !inList[name] {
+		if jb.sweep && !fc.has("nopanic") {
 			for _, ob := range vc.obls {
-				ob.Sweep = true
+				if strings.HasPrefix(ob.Kind, "panic.") || ob.Kind == "pre@call" {
+					ob.Sweep = true
+				}
 			}
 		}
 		obls = append(obls, vc.obls...)
@@ -218,7 +220,19 @@ func runCheck(o checkOpts) int {
 	if o.tier == "thorough" {
 		budget, all = 60, true
 	}
-	dischargeAll(obls, tmp, budget, all, 16)
+	// sweep obligations recorded as not claimed are not sent to the solvers in the
+	// quick tier (they would only burn their time-outs); thorough retries them.
+	var toRun []*Obligation
+	for _, ob := range obls {
+		if le := lock[prop]; le != nil && !o.updateLock && o.tier == "quick" {
+			if _, un := le.Unclaimed[ob.Name]; un {
+				ob.Status = "not-run"
+				continue
+			}
+		}
+		toRun = append(toRun, ob)
+	}
+	dischargeAll(toRun, tmp, budget, all, 16)
 
 	if o.verbose {
 		for _, vc := range vcs {
